@@ -112,15 +112,18 @@ add('C17', 'proof', 'Lean 4 theorems about an inverse-CDF stream model + bit-exa
     'recording FTP decoder from a twin numpy generator; numpy choice = searchsorted on the normalised cumsum is re-checked '
     'on every run. Uniformity/independence of PCG64 is trusted; a chi-square test is reported as supporting test only.',
     TB + 'numpy Generator.choice consumption contract re-validated each run; PCG64 statistical quality trusted.')
-add('C12', 'proof', 'Lean 4 theorems about a shape/control-flow model of the MPS sweeps (singular values as oracle input) + exact shape correspondence and numeric contract monitors',
-    'Contiguity errors, QR-vs-SVD choice by mask, kept rank <= chi and <= min(rows, cols), mask reversal in the right '
-    'canonical form, truncate is the identity exactly when its guard says so, zero detection gives zeros_like with norm 0 and '
-    'no later division, output bonds are consistent and <= chi after truncate — Lean theorems for all lengths, dimensions '
-    'and oracle singular-value lists. The numeric clauses (isometry, state preservation, unit norm, truncation error <= '
-    'discarded weight, no NaN) depend on LAPACK and floating point and are NOT theorems: they are evaluated with tolerances '
-    'on the real outputs of every generated case (counts in evidence: explored).',
-    TB + 'scipy/LAPACK QR and SVD are oracles (their outputs are recorded by wrapping them from the harness); numeric '
-    'contracts are explored, not proved.')
+add('C12', 'proof', 'Lean 4 theorems: shape/control-flow model of the sweeps (singular values as oracle input) + the algebraic contracts over R with the QR/SVD factorisation as hypothesis; exact shape correspondence and numeric contract monitors',
+    'Shape model (all lengths, dimensions, oracle lists): contiguity errors, QR-vs-SVD choice by mask, kept rank <= chi and '
+    '<= min(rows, cols), mask reversal in the right canonical form, truncate is the identity exactly when its guard says so, '
+    'zero detection gives zeros_like with norm 0 and no later division, consistent output bonds <= chi. Algebraic model over '
+    'the reals with each factorisation (M = QR, QtQ = 1; M = U diag(s) W, UtU = 1, WWt = 1) as an explicit hypothesis = the '
+    'LAPACK oracle contract: a sweep preserves the represented tensor up to the accumulated norm, all sites but the centre '
+    'are isometries, the normalised result has unit norm, and for a truncating sweep the squared distance equals the '
+    'accumulated discarded weight (an equality, so the bound of the property holds) — 22 theorems. That LAPACK meets its '
+    'contract in floating point is NOT a theorem: isometry, preservation, unit norm, error <= discarded weight and '
+    'NaN-freedom are evaluated with tolerances on the real outputs of every generated case (evidence: explored).',
+    TB + 'scipy/LAPACK QR and SVD are oracles (recorded by wrapping them from the harness); the link between the shape '
+    'model\'s step sequence and the algebraic sweep relation is by construction, not a theorem.')
 add('C11', 'proof', 'Lean 4 theorems (interchange law, associativity, sweep = merged grid tensor) over any commutative semiring + exact integer-network correspondence',
     'The pairwise cell and the ladder step are modelled as compositions of 4-leg tensors; the interchange law, associativity '
     'of the cell, ladder-of-pairwise, and hence: left-to-right sweep = right-to-left sweep = every split-and-recombine = '
@@ -142,17 +145,18 @@ add('C16', 'proof', 'Lean 4 theorems over Q (and R for the square-root model) ab
     'extreme biases, and the property is evaluated directly on the floats (strict non-negativity). Five genuine defects found '
     'this way were repaired in /repo (fix: commits, see known_findings.json).',
     TB + 'IEEE-754 evaluation of the closed forms is explored on grids, not proved.')
-add('C14', 'proof', 'Lean 4 theorems about the naive decoder (min weight, corrects total weight <= t) and the MWPM X/Z split + exhaustive sweep of correctable errors through the real decoders',
-    'Proved for any code: the naive decoder is exactly the first match in ibsf order, returns a minimum-weight solution, '
-    'returns None iff no Pauli has the syndrome, and corrects every error of TOTAL weight <= t under the distance hypothesis '
-    '(discharged in the kernel for the five-qubit and Steane codes); the per-component form of the property is provably '
-    'false for it (known finding D5, theorem naive_mixed_support_counterexample). For the planar / toric MWPM decoders the '
-    'X/Z split and the reduction "minimum matching + chain bound => corrected" are theorems with the C02/C07/C08/C13/C15 '
-    'facts as explicit hypotheses; chain_induces_matching is stated, not proved, so the MWPM clause itself rests on the '
-    'explored part: every error with |X|,|Z| <= t on planar and toric 2x2..4x5 (exhaustive) and samples to 7x7 through the '
-    'real decoders, verdict confirmed by the Lean driver and a span certificate.',
-    TB + 'networkx matching inside the decoders is not modelled (see C13).')
-
+add('C14', 'proof', 'Lean 4 theorems: naive decoder (min weight, corrects total weight <= t) and, for ALL planar / toric sizes, MWPM corrects every error with |X|,|Z| <= t for any minimum-weight perfect matching (T-join lemma); exhaustive sweep through the real decoders',
+    'Proved for any code: the naive decoder is the first match in ibsf order, returns a minimum-weight solution, None iff no '
+    'Pauli has the syndrome, and corrects every error of TOTAL weight <= t under the distance hypothesis (discharged for the '
+    'five-qubit and Steane codes); the per-component form is provably false for it (known finding D5). For the planar and '
+    'toric MWPM decoders, for ALL sizes R, C >= 2: every error chain induces a perfect matching of the decoder\'s graph of '
+    'total distance <= its weight (generic T-join lemma over any multigraph with a metric, with a boundary variant for the '
+    'virtual plaquettes), so with any minimum-weight perfect matching the recovery XOR error is a stabilizer product whenever '
+    '|X-support|, |Z-support| <= t = (min(R,C)-1)/2 — C02, C07, C08, C15 facts discharged; the only remaining hypothesis is '
+    'that the matching handed back is of minimum weight (networkx, see C13) — 36 theorems. Tied to the code by exact '
+    'comparison of the naive decoder and by sweeping every error with |X|,|Z| <= t on planar and toric 2x2..4x5 (exhaustive) '
+    'and samples beyond through the real decoders, verdict confirmed by the Lean driver and a span certificate.',
+    TB + 'Minimality of the networkx matching is a hypothesis (tested against a verified optimum in C13).')
 add('C08', 'proof', 'Lean 4 theorems: IsDistance (min R C) for ALL sizes of the planar, toric, rotated-planar and rotated-toric families (lower bound by strip-parity / disjoint translates), basic codes by kernel evaluation; verified CSS-split search on the real matrices for colour 6.6.6',
     'Theorems (34): for every size of the planar, toric (all four logicals), rotated-planar and rotated-toric families, every '
     'operator that commutes with all stabilizers and anticommutes with some logical has weight >= min(R,C) (commutation '
@@ -205,6 +209,32 @@ add('C06', 'proof', 'Lean 4 theorems about a stream-threaded run model and an LR
     'tie coin, the file model\'s cursor) are pinned or excluded.',
     TB + 'History independence of the real caches is explored (metamorphic differential whose oracle is the implementation '
     'in a fresh process), not proved; PCG64 and numpy choice consumption as in C17.')
+
+add('C02', 'proof', 'Lean 4 theorems: pairing theorem + recovery-reproduces-syndrome for the path-composed decoders with the matching as a universally quantified parameter; verified monitor on every registry decoder',
+    'Proved for all lattice sizes, all syndromes and ANY perfect matching of the modelled graph: the XOR of lattice paths over '
+    'a matching has syndrome exactly the defect set (pairing theorem, generic over a path interface), hence the planar MWPM '
+    'recovery (graph incl. nearest virtual plaquettes and the extra node on odd totals; a perfect matching always exists), the '
+    'planar CMWPM recovery (max_iterations >= 1), the toric MWPM recovery (even defect count per lattice), the sample '
+    'recoveries of the planar / rotated-planar / colour 6.6.6 tensor-network decoders and any product with logicals or '
+    'stabilizers, and the naive decoder (sound; complete on syndromes; guard) reproduce the syndrome and never fail; the '
+    'monitor recoveryOk decides the property for all errors with that syndrome at once — 17 theorems (+ instances that '
+    'discharge the C15 / C07 interface hypotheses). The rotated SMWPM decoders and the planar Y decoder internals are NOT '
+    'modelled: every registry decoder is run on real syndromes (all syndromes of the smallest codes, errors of every weight '
+    'on larger ones, all parameterisations and context models) and judged by the verified monitor in Python and in Lean. '
+    'Tie for the modelled part: exact comparison of sample_recovery, of the recorded gt.mwpm graph and matching, and of the '
+    'final recovery given the recorded matching. PlanarCMWPMDecoder(max_iterations=0) is a known finding.',
+    TB + 'networkx matching is a parameter (any perfect matching); SMWPM x2 and planar-Y are explored with a verified oracle.')
+add('C03', 'proof', 'Lean 4 theorems: run-level algebra (XOR of rows = syndrome of the total error), reachable-input characterisation, time-parity / result-constructor logic; whole FTP decoders explored with a verified monitor, exhaustively on the smallest reachable domains',
+    'Proved: "recovery has the syndrome of the total error" is equivalent to the checkable synd(S, r) = XOR of all rows for '
+    'every T and flip pattern; the arrays the simulation can hand to an FTP decoder are exactly those whose row-XOR is a '
+    'syndrome in the model\'s support (0<q<1; row-wise for q in {0,1}), with executable witnesses; tparity (0 iff 2|b-a| <= T, '
+    'periodic, symmetric, T=1 never time-like), measurement t-parities, the rotated-toric result constructor (recovery '
+    'passed through, exactly two custom values, non-zero only with success=False, single step / itp never time-like, raises '
+    'iff the documented inputs are missing), composition of symmetry and cluster stages — 16 theorems. The matching-graph '
+    'construction and clustering inside the two SMWPM decoders are NOT modelled: they are run through run_once_ftp and '
+    'directly on every reachable array of the smallest lattices (T<=3), over sizes, T, p, q corners, finite / infinite bias, '
+    'and judged by the verified monitor (Python and Lean), plus no-raise / no-None / no codespace warning.',
+    TB + 'Whole-decoder claim rests on exploration with a Lean-verified oracle (exhaustive on the smallest domains).')
 
 NOT_YET = {}
 
